@@ -19,6 +19,7 @@ def run(ctx: Ctx) -> list[Ob]:
     obs += r13.r13f(ctx)
     obs += r13.r13h(ctx)
     obs += r14.call_order(ctx, T + 'logic.graph.LogicalCircuit.build_circuit', 'smooth', 'prune', 'smoothing has to see the scopes of the un-pruned graph -- a variable that only occurs in a branch unit propagation removes drops out of the scope, no (x | ~x) node is added for it and the circuit integrates to the model count divided by 2^k')
+    obs += r13.r13i(ctx) + r13.r13i_consistent(ctx)
     return obs
 
 
@@ -33,8 +34,9 @@ SPEC = PropSpec(
         "('embedding', 'categorical', 'binomial', 'gaussian') builds the same-named layer class. R13c (index-space typing of hmm): `ordering` is a position-indexed table of variable ids, the per-variable arguments and everything mapped from them in order are indexed by variable id, range counters are positions, ordering[..] and loop variables over ordering are variable ids; every subscript read of a typed table uses an index of the table's own space and zip never pairs a variable-indexed table with ordering entry by entry. R10h: LogicalCircuit.smooth / prune change node inputs in place while querying node_scope; no query method of the class memoises its answers in a dict attribute (a stale scope makes smoothing add the same literal twice, and the circuit is no longer decomposable)."
         " R14b (logic circuits, smoothing): removing the element a for-loop is standing on from the list it iterates is compensated by an insertion at index 0 in the same block (or the loop iterates a copy) -- otherwise the next input of the disjunction is skipped and stays un-smoothed. R8 smoothing-conjoins: in LogicalCircuit.smooth the in-place extension of an input's own input list with smoothing nodes is unreachable unless that input is a ConjunctionNode (known from an isinstance test, not from 'it has inputs'). R14k: no arithmetic negation of a literal's variable id in the logic package (ids are 0-based: -0 == 0). R13f: a block slice T[i*K:(i+1)*K] of a table built by a two-generator comprehension requires the *inner* generator to be range(K) (tensor_train: cores are mode-major). R14c: in LogicalCircuit.build_circuit smooth() never runs after prune() (must-precede on the CFG)."
         ' R13h: arranging items along an ordering is a lookup items[ordering[t]]; sorting zip(ordering, items) by the first component (or argsort(ordering)) arranges by the inverse permutation, which agrees only for self-inverse orderings.'
+        ' R13i: every kind of factor has as many states as the mode it encodes -- the size keyword the tensor-factorisation templates pass is num_categories=dim / num_states=dim / total_count=dim - 1 (a Binomial with total count n has n + 1 states), decided as a polynomial identity in dim; the alternative input layers of image_data denote the same number of states (256, 256, 255 + 1).'
     ),
     not_decided="CP / Tucker / TT contraction formulas, HMM joint probabilities, logic-circuit semantics and model counting (numerical / run-time).",
     run=run,
-    floors={"R13h": 1, "R14b": 2, "R14c": 1, "R10h": 1, "R13c": 2, "R13a": 7, "N1": 4},
+    floors={"R13i": 4, "R13h": 1, "R14b": 2, "R14c": 1, "R10h": 1, "R13c": 2, "R13a": 7, "N1": 4},
 )
